@@ -462,7 +462,7 @@ func c14Families(p *chk.Prog, r *chk.Report) {
 	cut6 := func(b *cfgBlock, k int) bool { return g.EdgeImplies(b, k, is4) }
 	aliasSites := map[string][]chk.Site{}
 	for _, s := range g.FindPat("V.Insert(X)") {
-		id, isId := ast.Unparen(s.Node.(*ast.CallExpr).Fun.(*ast.SelectorExpr).X).(*ast.Ident)
+		id, isId := ast.Unparen(ast.Unparen(s.Node.(*ast.CallExpr).Fun).(*ast.SelectorExpr).X).(*ast.Ident)
 		if !isId {
 			continue
 		}
